@@ -1037,73 +1037,85 @@ fn sweep_rule_only(ctx: &Ctx, tabs: &Tables, years: i64, include_noninterleaving
     t
 }
 
-/// rule-only zones searched in the first and last years the rule arithmetic supports (I4: local and UTC year of every
-/// candidate instant inside [i32::MIN + 2, i32::MAX - 2]); the model evaluates the rule directly (no year window)
-fn sweep_rule_extreme_years(ctx: &Ctx) -> Tally {
+/// searches of one rule-only zone around its own transitions and at both ends of the given years (I4: local and UTC year of
+/// every candidate instant inside [i32::MIN + 2, i32::MAX - 2]); the model evaluates the rule directly (no year window)
+fn extreme_years_for_rule(ctx: &Ctx, r: RuleSpec, years: &[i64], tl: &mut Tally) {
     let cyc = ctx.cyc;
+    let (ylo, yhi) = (i32::MIN as i64 + 2, i32::MAX as i64 - 2);
+    let (ms, md) = (crate::rule::std_type(&r), crate::rule::dst_type(&r));
+    if alt(&r, &ms, &md).is_err() {
+        return;
+    }
+    let rule = MRule::alt(cyc, r, ms, md);
+    if !matches!(rule, MRule::Alt { class: Class::StartFirst | Class::EndFirst, .. }) {
+        return;
+    }
+    let z = MZone { trans: vec![], types: vec![ms, md], leaps: vec![], rule: Some(rule) };
+    let iz = ImplZone::from_model(&z).unwrap();
+    let zr = iz.zref().unwrap();
+    tl.zones += 1;
+    let mut ls: Vec<i64> = vec![];
+    for &y in years {
+        for x in [r.s(cyc, y), r.e(cyc, y)] {
+            for off in [r.std_off, r.dst_off] {
+                for d in -1..=1 {
+                    ls.push(x + off + d);
+                }
+            }
+            ls.push(x + (r.std_off + r.dst_off) / 2);
+        }
+        ls.push((r.s(cyc, y) + r.e(cyc, y)) / 2 + r.std_off);
+        // both ends of the year
+        let ny = cyc.timegm(y, 1, 1, 0, 0, 0);
+        let ny1 = cyc.timegm(y + 1, 1, 1, 0, 0, 0);
+        for l in [ny, ny + 1, ny + 86_400 * 20, ny1 - 1, ny1 - 86_400 * 20] {
+            ls.push(l);
+        }
+    }
+    ls.sort();
+    ls.dedup();
+    for &l in &ls {
+        let in_domain = [l, l - r.std_off, l - r.dst_off].iter().all(|&t| {
+            let yy = cyc.gmtime(t).0.year;
+            yy >= ylo && yy <= yhi
+        });
+        if !in_domain {
+            continue;
+        }
+        if let Some(f) = Fields::of_local(cyc, l, 7) {
+            check_search(ctx, &z, zr, &f, "rule_extreme_years", tl);
+        }
+    }
+}
+
+/// rule-only zones searched in the first and last years the rule arithmetic supports; rules whose start and end coincide in
+/// most years (tie families) over the first and last 12 years
+fn sweep_rule_extreme_years(ctx: &Ctx) -> Tally {
     let days = quick_days();
     let combos = quick_combos();
     let nd = days.len();
     let (ylo, yhi) = (i32::MIN as i64 + 2, i32::MAX as i64 - 2);
-    let t = (0..nd * nd)
+    let ties = crate::rule::tie_specs();
+    let t = (0..nd * nd + ties.len())
         .into_par_iter()
         .map(|ij| {
-            let (i, j) = (ij / nd, ij % nd);
             let mut tl = Tally::default();
             let r = guard(|| {
                 let mut tl = Tally::default();
-                for &(st, et, o) in combos.iter() {
-                    let r = spec(days[i], days[j], st, et, o);
-                    let (ms, md) = (crate::rule::std_type(&r), crate::rule::dst_type(&r));
-                    if alt(&r, &ms, &md).is_err() {
-                        continue;
+                if ij < nd * nd {
+                    let (i, j) = (ij / nd, ij % nd);
+                    for &(st, et, o) in combos.iter() {
+                        extreme_years_for_rule(ctx, spec(days[i], days[j], st, et, o), &[ylo, ylo + 1, yhi - 1, yhi], &mut tl);
                     }
-                    let rule = MRule::alt(cyc, r, ms, md);
-                    if !matches!(rule, MRule::Alt { class: Class::StartFirst | Class::EndFirst, .. }) {
-                        continue;
-                    }
-                    let z = MZone { trans: vec![], types: vec![ms, md], leaps: vec![], rule: Some(rule) };
-                    let iz = ImplZone::from_model(&z).unwrap();
-                    let zr = iz.zref().unwrap();
-                    tl.zones += 1;
-                    let mut ls: Vec<i64> = vec![];
-                    for y in [ylo, ylo + 1, yhi - 1, yhi] {
-                        for x in [r.s(cyc, y), r.e(cyc, y)] {
-                            for off in [r.std_off, r.dst_off] {
-                                for d in -1..=1 {
-                                    ls.push(x + off + d);
-                                }
-                            }
-                            ls.push(x + (r.std_off + r.dst_off) / 2);
-                        }
-                        ls.push((r.s(cyc, y) + r.e(cyc, y)) / 2 + r.std_off);
-                        // both ends of the year
-                        let ny = cyc.timegm(y, 1, 1, 0, 0, 0);
-                        let ny1 = cyc.timegm(y + 1, 1, 1, 0, 0, 0);
-                        for l in [ny, ny + 1, ny + 86_400 * 20, ny1 - 1, ny1 - 86_400 * 20] {
-                            ls.push(l);
-                        }
-                    }
-                    ls.sort();
-                    ls.dedup();
-                    for &l in &ls {
-                        let in_domain = [l, l - r.std_off, l - r.dst_off].iter().all(|&t| {
-                            let yy = cyc.gmtime(t).0.year;
-                            yy >= ylo && yy <= yhi
-                        });
-                        if !in_domain {
-                            continue;
-                        }
-                        if let Some(f) = Fields::of_local(cyc, l, 7) {
-                            check_search(ctx, &z, zr, &f, "rule_extreme_years", &mut tl);
-                        }
-                    }
+                } else {
+                    let years: Vec<i64> = (0..12).map(|k| ylo + k).chain((0..12).map(|k| yhi - k)).collect();
+                    extreme_years_for_rule(ctx, ties[ij - nd * nd], &years, &mut tl);
                 }
                 tl
             });
             match r {
                 Ok(t) => tl = tl.merge(t),
-                Err(m) => ctx.rec.violation("rule_extreme_years", json!({"kind":"rule_row","start":days[i].text(),"end":days[j].text()}), json!("no panic"), json!(m)),
+                Err(m) => ctx.rec.violation("rule_extreme_years", json!({"kind":"rule_row","index":ij}), json!("no panic"), json!(m)),
             }
             tl
         })
